@@ -232,6 +232,15 @@ theorem C12_host_rewrite (cfg : Cfg) (req : Parser) (u : Url) (h : Bytes) :
 def HdrNamesDistinct (req : Parser) : Prop :=
   ∀ hs, req.headers = some hs → (hs.map (fun e => e.2.1)).Nodup
 
+/-- `HdrNamesDistinct` holds for every request produced by the parser model
+    (`HttpParser.parse` fed any pieces), so it is not an extra assumption on real inputs. -/
+theorem C12_parsed_names_distinct (pcfg : Px.Parser.Cfg) (segs : List Bytes) (req : Parser)
+    (h : Px.Parser.parseAll pcfg (Px.Parser.init .request) segs = .ok req) : HdrNamesDistinct req := by
+  intro hs hh
+  have := HdrInv.parseAll_ok pcfg (Px.Parser.init .request) req segs (by simp [Px.Parser.init, HdrInv.HOk]) h
+  rw [hh] at this
+  exact HdrInv.names_nodup hs this
+
 /-- **C12 headers preserved.**  Without Host rewriting the header dict handed
 to `build_http_request` is exactly the client's fields — original-case name and
 value, in the order received — minus the names listed in `--disable-headers`
@@ -325,7 +334,7 @@ theorem C12_dynamic_literal (cfg : Cfg) (m : Nat → Bool) (pick : Nat → Nat) 
         | some v => simp [hx] at hnone
       simp only [List.filterMap_cons]
       cases ha : routeAct cfg (pick ir.1) ir.2 with
-      | fail e => exact absurd ha (hclean e)
+      | fail e c => exact absurd ha (hclean e c)
       | url v => simp [urlOf, ha] at hnu
       | lit resp => simp [litOf, ha]
 
@@ -333,10 +342,10 @@ theorem C12_dynamic_literal (cfg : Cfg) (m : Nat → Bool) (pick : Nat → Nat) 
 whose chosen URL parses to that `Url`: the loop sees the same action, hence
 (`C12_target`) the same connect address, forwarded request and relay. -/
 theorem C12_dynamic_url (cfg : Cfg) (k pat pat' : Nat) (raw : Bytes) (u : Url)
-    (hf : Px.Url.fromBytes cfg.allowedSchemes raw = .ok u) :
+    (hf : Px.Url.fromBytes cfg.allowedSchemes raw = .ok u) (hs : strOk u = true) :
     routeAct cfg k (.dynamic pat (.url u)) = .url u ∧
     routeAct cfg 0 (.static pat' [raw]) = routeAct cfg k (.dynamic pat (.url u)) := by
-  simp [routeAct, hf]
+  simp [routeAct, hf, hs]
 
 /-- a connection refused by the upstream ends the request with an
 `HttpProtocolException` after exactly that one connect attempt; nothing is queued for it -/
@@ -379,7 +388,7 @@ example : HdrNamesDistinct exReq := by
 example : hits (fun i => i == 0) 0 exTable = [(0, .static 0 [b "http://httpbingo.org/get", b "https://httpbingo.org:8443"])] := by
   decide +kernel
 example : Clean {} (fun _ => 1) (hits (fun i => i == 0) 0 exTable) := by
-  intro ir hir e
+  intro ir hir e c
   have : ir = (0, .static 0 [b "http://httpbingo.org/get", b "https://httpbingo.org:8443"]) := by
     have h : hits (fun i => i == 0) 0 exTable =
         [(0, .static 0 [b "http://httpbingo.org/get", b "https://httpbingo.org:8443"])] := by decide +kernel
